@@ -304,4 +304,26 @@ def set? (s : Slice α) (i : Int64) (v : α) : Option (Slice α) :=
   if 0 ≤ i.toInt ∧ i.toInt < s.len then some ⟨s.arr.set i.toInt.toNat v, s.len, by simpa using s.ok⟩ else none
 end Slice
 
+/-! ### byte buffers made in the function (`cap = len`) -/
+
+/-- `make([]byte, n)` for a run-time `n`: panics when `n < 0` -/
+def makeBytesN? (n : Int64) : Option (List UInt8) :=
+  if 0 ≤ n.toInt then some (List.replicate n.toInt.toNat 0) else none
+
+/-- `binary.BigEndian.PutUint16(b[off:], v)` on a buffer whose capacity is its length (made by
+    `make([]byte, n)` in the same function — the translator accepts it on nothing else): the slice
+    expression panics when `off` is outside `0 … len(b)`, `PutUint16` when fewer than 2 bytes follow -/
+def putU16? (b : List UInt8) (off : Int64) (v : UInt16) : Option (List UInt8) :=
+  if 0 ≤ off.toInt ∧ off.toInt.toNat + 2 ≤ b.length then
+    some (b.take off.toInt.toNat ++ [(v >>> 8).toUInt8, v.toUInt8] ++ b.drop (off.toInt.toNat + 2))
+  else none
+
+/-- `copy(b[off:], src)` on such a buffer: `min(len(b) - off, len(src))` bytes -/
+def copyL? (dst : List UInt8) (off : Int64) (src : List UInt8) : Option (List UInt8) :=
+  if 0 ≤ off.toInt ∧ off.toInt.toNat ≤ dst.length then
+    let k := off.toInt.toNat
+    let n := min (dst.length - k) src.length
+    some (dst.take k ++ src.take n ++ dst.drop (k + n))
+  else none
+
 end ScionTime.Go
